@@ -181,7 +181,7 @@ impl Merge for Variance {
         let len_total = len_self + len_other;
         let delta = other.mean() - self.mean();
         self.avg.merge(&other.avg);
-        self.sum_2 += other.sum_2 + delta*delta * len_self * len_other / len_total;
+        self.sum_2 += other.sum_2 + delta*delta * (len_self * len_other / len_total);
     }
 }
 
